@@ -51,7 +51,7 @@ def _atoms_of(e, consts):
     if isinstance(e, ast.Name) and e.id in consts:
         return consts[e.id]
     if isinstance(e, (ast.Name, ast.Attribute, ast.Subscript)):
-        if any(isinstance(x, ast.Name) and x.id in _UNSTABLE for x in ast.walk(e)):
+        if any(isinstance(x, ast.Name) and x.id in _UNSTABLE for x in ast.walk(e)) or any(isinstance(x, ast.Attribute) and _txt(x) in _UNSTABLE for x in ast.walk(e)):
             return (_opaque(),)
         return (_txt(e),)
     return (_opaque(),)
@@ -143,6 +143,11 @@ class _Typer:
         loopv = {x.id for lp in ast.walk(fi.node) if isinstance(lp, (ast.For, ast.comprehension)) for x in ast.walk(lp.target) if isinstance(x, ast.Name)}
         # a size name bound more than once may name two different sizes: never an atom
         self.unstable = {k for k, v in stores.items() if v >= 2 or k in params} | loopv
+        # attributes assigned inside the function are not stable size names either
+        self.unstable |= {x.value.id for x in ast.walk(fi.node) if isinstance(x, ast.Attribute) and isinstance(x.ctx, ast.Store) and isinstance(x.value, ast.Name)
+                          and any(isinstance(y, ast.Attribute) and isinstance(y.ctx, ast.Load) and _txt(y) == _txt(x) for y in ast.walk(fi.node))} - {'self'}
+        self.attr_unstable = {_txt(x) for x in ast.walk(fi.node) if isinstance(x, ast.Attribute) and isinstance(x.ctx, ast.Store)}
+        self.locals = set(stores) | params
 
     # ------------------------------------------------------------------ expressions
     def shape(self, e, env):
@@ -177,7 +182,13 @@ class _Typer:
         f = c.func
         if isinstance(f, ast.Attribute):
             name = f.attr
-            if name in ('reshape', 'view') and c.args and not (isinstance(f.value, ast.Name) and f.value.id in ('np', 'torch', 'numpy')):
+            if name in ('reshape', 'view') and any(k.arg == 'order' and not (isinstance(k.value, ast.Constant) and k.value.value == 'C') for k in c.keywords):
+                return None         # column-major regrouping: not typed
+            if name in ('reshape', 'view') and isinstance(f.value, ast.Name) and f.value.id not in self.locals:
+                if f.value.id in ('np', 'torch', 'numpy') and name == 'reshape' and len(c.args) >= 2:
+                    return self.reshape(c, c.args[0], c.args[1:], env)
+                return None         # a module-level function of another library (cvxpy.reshape, ...)
+            if name in ('reshape', 'view') and c.args:
                 return self.reshape(c, f.value, c.args, env)
             if name == 'reshape' and isinstance(f.value, ast.Name) and f.value.id in ('np', 'torch', 'numpy') and len(c.args) >= 2:
                 return self.reshape(c, c.args[0], c.args[1:], env)
@@ -595,6 +606,7 @@ def fl1(proj, rep, modules=None):
         t = _Typer(fi, rep, m)
         _UNSTABLE.clear()
         _UNSTABLE.update(t.unstable)
+        _UNSTABLE.update(t.attr_unstable)
         try:
             t.block(fi.node.body, {})
         except RecursionError:
